@@ -205,6 +205,7 @@ Definition setFromTwoAxes (sqrtEps:T) (R:Mat33 T) (uveci:Vec3 T) (axisi:nat) (ve
     else
       let uveck := unitvec veck in
       let uvecj := unitvec (v3_cross K uveck uveci) in
+      let uveck := unitvec (v3_cross K uveci uvecj) in      (* re-orthogonalised against uveci (fix f480eb94) *)
       let axisj := ax_next axisi in let axisk := ax_next axisj in
       let '(axisj, axisk, uveck) :=
         if negb (ax_same axisj axisjApprox) then (axisk, axisj, v3_neg K uveck) else (axisj, axisk, uveck) in
